@@ -327,7 +327,7 @@ pub fn check_input(rep: &mut Report, b: &[u8], label: &str, rng: &mut StdRng) ->
     let r = guarded(|| FuzzMessage::deserialize(b).map(|m| (format!("{m:?}"), m)).map_err(|e| e.to_string()));
     let (dbg, msg) = match r {
         Err(p) => {
-            viol(rep, "total", &format!("{}|{}", p.file(), p.class()), format!("deserialize panicked: {} at {}", p.message, p.location));
+            viol(rep, "total", &format!("{}|{}", p.site(), p.class()), format!("deserialize panicked: {} at {}", p.message, p.location));
             return Outcome { accepted: false };
         }
         Ok(Err(_)) => {
@@ -367,7 +367,7 @@ pub fn check_input(rep: &mut Report, b: &[u8], label: &str, rng: &mut StdRng) ->
                 Ok(Some(true)) => {}
                 Ok(Some(false)) => viol(rep, "tail-independence", k, "result depends on bytes beyond messageLength".into()),
                 Ok(None) => viol(rep, "tail-independence", k, "accepted/rejected depends on bytes beyond messageLength".into()),
-                Err(p) => viol(rep, "total", &format!("{}|{}", p.file(), p.class()), format!("deserialize panicked with {k}: {}", p.message)),
+                Err(p) => viol(rep, "total", &format!("{}|{}", p.site(), p.class()), format!("deserialize panicked with {k}: {}", p.message)),
             }
         }
     }
@@ -381,7 +381,7 @@ pub fn check_input(rep: &mut Report, b: &[u8], label: &str, rng: &mut StdRng) ->
     });
     let n = match s {
         Err(p) => {
-            viol(rep, "re-encode", &format!("panic|{}|{}", p.file(), p.class()), format!("serialize panicked: {} at {}", p.message, p.location));
+            viol(rep, "re-encode", &format!("panic|{}|{}", p.site(), p.class()), format!("serialize panicked: {} at {}", p.message, p.location));
             return Outcome { accepted: true };
         }
         Ok((Err(e), _)) | Ok((_, Err(e))) => {
@@ -411,7 +411,7 @@ pub fn check_input(rep: &mut Report, b: &[u8], label: &str, rng: &mut StdRng) ->
         Ok(Some(true)) => {}
         Ok(Some(false)) => viol(rep, "roundtrip", "unequal", "decode(encode(m)) != m".into()),
         Ok(None) => viol(rep, "roundtrip", "undecodable", "encode(m) is rejected by the decoder".into()),
-        Err(p) => viol(rep, "total", &format!("{}|{}", p.file(), p.class()), format!("deserialize of re-encoded bytes panicked: {}", p.message)),
+        Err(p) => viol(rep, "total", &format!("{}|{}", p.site(), p.class()), format!("deserialize of re-encoded bytes panicked: {}", p.message)),
     }
     // reference codec comparison
     match (Msg::decode(&b[..l]), Msg::decode(s1)) {
